@@ -728,6 +728,7 @@ func c14Batch(c *Check, tier string) int {
 		batch.Add("%s", l)
 	}
 	wall := time.Since(start).Seconds()
+	findings.PrintUnmet("C14", knownSeen)
 	cov := map[string]interface{}{
 		"batch_fingerprint":   batch.HashHex(),
 		"evaluations":         len(all),
